@@ -84,12 +84,14 @@ Eff(doc, flt, f) ==
        ELSE IF flt.f[f] # "absent" THEN <<flt.f[f], flt.tag>> ELSE <<doc.def.f[f], "D">>
   ELSE <<flt.f[f], flt.tag>>
 
+\* header names compare without case (the driver reports the loaded name in lower case)
+LC(t) == CASE t = "P1" -> "p1" [] t = "P2" -> "p2" [] t = "O1" -> "o1" [] t = "O2" -> "o2" [] t = "D" -> "d" [] OTHER -> t
 \* nested messages merge member-wise: header and preamble separately
 EffHeader(doc, flt) ==
   LET o == flt.f.hdr  d == IF doc.def.present THEN doc.def.f.hdr ELSE "absent" IN
   IF flt.type = "override" /\ doc.def.present
-  THEN IF o \in {"ok", "headerOnly"} THEN "x-id-" \o flt.tag ELSE IF d \in {"ok", "headerOnly"} THEN "x-id-D" ELSE ""
-  ELSE IF o \in {"ok", "headerOnly"} THEN "x-id-" \o flt.tag ELSE ""
+  THEN IF o \in {"ok", "headerOnly"} THEN "x-id-" \o LC(flt.tag) ELSE IF d \in {"ok", "headerOnly"} THEN "x-id-d" ELSE ""
+  ELSE IF o \in {"ok", "headerOnly"} THEN "x-id-" \o LC(flt.tag) ELSE ""
 EffPreamble(doc, flt) ==
   LET o == flt.f.hdr  d == IF doc.def.present THEN doc.def.f.hdr ELSE "absent" IN
   IF flt.type = "override" /\ doc.def.present
